@@ -464,6 +464,103 @@ def g_gvoronoi(rng):
     return [rlabels(rng, rshape(rng, 2), dtype=rng.choice(["int32", "int64", "uint8"]))], {}
 
 
+# ---- the remaining public array functions (added late: as_rgb, disk, lbp_transform, zernike, get_structuring_elem,
+#      remove_regions_where, overlay, polygon.fill_polygon / line, resize_to / resize_rgb_to, wavelet_decenter)
+def g_as_rgb(rng):
+    sh = rshape(rng, 2)
+    dt = rng.choice(["uint8", "float64", "uint16"])
+    ch = [A(dt, sh, rvals(rng, dt, int(np.prod(sh)), 0, 9)) if rng.random() < 0.8 else rng.choice([None, 0, 3]) for _ in range(3)]
+    if not any(isinstance(c, dict) for c in ch):
+        ch[0] = A(dt, sh, rvals(rng, dt, int(np.prod(sh)), 0, 9))
+    return ch, {}
+
+
+def g_disk(rng):
+    return [rng.choice([0, 1, 2, 3])], {"dim": rng.choice([2, 3])}
+
+
+def g_lbp_transform(rng):
+    a = rarr(rng, ["uint8", "float64", "int32"], nd=2, lo=0, hi=9, lo_dim=3, hi_dim=8)
+    return [a, rng.choice([1, 2]), rng.choice([4, 6, 8])], {"ignore_zeros": False, "preserve_shape": True}
+
+
+def g_zernike_alias(rng):
+    a = rarr(rng, ["uint8", "float64"], nd=2, lo=0, hi=9, lo_dim=4, hi_dim=8)
+    return [a, rng.choice([4, 8]), rng.choice([2, 3, 4])], {}
+
+
+def g_get_se(rng):
+    a = rarr(rng, ["bool", "uint8", "float64"])
+    nd = len(a["shape"])
+    bc = rng.choice([None, 1, 2, "arr"])
+    if bc == "arr":
+        bc = rse(rng, nd, "bool")
+    elif bc is not None and bc > nd:
+        bc = 1
+    return [a, bc], {}
+
+
+def g_remove_where(rng):
+    l = rlabels(rng, rshape(rng))
+    mx = max(l["vals"])
+    return [l, A("bool", [mx + 1], [rng.randint(0, 1) for _ in range(mx + 1)])], {}
+
+
+def g_overlay(rng):
+    sh = rshape(rng, 2)
+    n = int(np.prod(sh))
+    g = A("uint8", sh, rvals(rng, "uint8", n, 0, 200))
+    kw = {}
+    for c in ("red", "green", "blue"):
+        if rng.random() < 0.6:
+            kw[c] = A("bool", sh, [rng.randint(0, 1) for _ in range(n)])
+    return [g], kw
+
+
+def g_fill_polygon(rng):
+    h, w = rng.randint(3, 9), rng.randint(3, 9)
+    pts = [[rng.randrange(h), rng.randrange(w)] for _ in range(rng.randint(0, 5))]
+    return [pts, A(rng.choice(["bool", "uint8", "int32"]), [h, w], [0] * (h * w))], {"color": 1}
+
+
+def g_line(rng):
+    h, w = rng.randint(2, 9), rng.randint(2, 9)
+    return [[rng.randrange(h), rng.randrange(w)], [rng.randrange(h), rng.randrange(w)],
+            A(rng.choice(["bool", "uint8", "int32"]), [h, w], [0] * (h * w))], {"color": 1}
+
+
+def g_resize_to(rng):
+    a = rarr(rng, FLT_DT + ["uint8"], nd=2, lo_dim=2, hi_dim=6, lo=0, hi=9)
+    return [a, [rng.randint(1, 9), rng.randint(1, 9)]], {"order": rng.choice([1, 3])}
+
+
+def g_resize_rgb_to(rng):
+    h, w = rng.randint(2, 6), rng.randint(2, 6)
+    dt = rng.choice(["float64", "uint8"])
+    return [A(dt, [h, w, 3], rvals(rng, dt, h * w * 3, 0, 9)), [rng.randint(1, 8), rng.randint(1, 8)]], {"order": rng.choice([1, 3])}
+
+
+def g_decenter(rng):
+    oh, ow = rng.randint(1, 6), rng.randint(1, 6)
+    border = rng.choice([0, 1, 2])
+    # the centred shape is what wavelet_center produces for (oh, ow): a power-of-two box with room for the border
+    def up(v):
+        c = 1
+        while True:
+            nsz = 2 ** (int(np.floor(np.log2(v))) + c)
+            if (nsz - v) // 2 > border:
+                return nsz
+            c += 1
+    c0 = 1
+    while True:
+        sh = [2 ** (int(np.floor(np.log2(oh))) + c0), 2 ** (int(np.floor(np.log2(ow))) + c0)]
+        if min((sh[0] - oh) // 2, (sh[1] - ow) // 2) > border:
+            break
+        c0 += 1
+    n = sh[0] * sh[1]
+    return [A("float64", sh, [float(rng.randint(0, 9)) for _ in range(n)]), [oh, ow]], {"border": border}
+
+
 REG = [
     _morph("erode"), _morph("dilate"), _morph("open"), _morph("close"),
     E("cerode", g_cond, gil=True), E("cdilate", g_cdilate, gil=True),
@@ -511,19 +608,29 @@ REG = [
     E("sobel", g_edge, float_out=True), E("dog", g_edge, float_out=True), E("laplacian_2D", g_any2, float_out=True),
 ]
 REG.append(E("labeled.labeled_min", g_labeled_pair, float_out=True))
+REG += [E("as_rgb", g_as_rgb), E("disk", g_disk), E("features.lbp.lbp_transform", g_lbp_transform),
+        E("features.zernike", g_zernike_alias, float_out=True), E("get_structuring_elem", g_get_se),
+        E("labeled.remove_regions_where", g_remove_where), E("overlay", g_overlay),
+        E("polygon.fill_polygon", g_fill_polygon, inplace_args=(1,)), E("polygon.line", g_line, inplace_args=(2,)),
+        E("resize.resize_to", g_resize_to, float_out=True), E("resize.resize_rgb_to", g_resize_rgb_to, float_out=True),
+        E("wavelet_decenter", g_decenter, float_out=True)]
 BYNAME = {e.name: e for e in REG}
 
 
 def resolve(mh, name):
+    """public function by dotted name below `mahotas`; sub-modules shadowed by same-named functions (features.lbp,
+    features.zernike) are reached by importing the longest module prefix first"""
     import importlib
-    obj = mh
     parts = name.split(".")
-    for i, p in enumerate(parts):
-        if not hasattr(obj, p):
-            obj = importlib.import_module("mahotas." + ".".join(parts[:i + 1]))
-        else:
-            obj = getattr(obj, p)
-    return obj
+    for cut in range(len(parts) - 1, -1, -1):
+        try:
+            obj = importlib.import_module(".".join(["mahotas"] + parts[:cut]))
+            for p in parts[cut:]:
+                obj = getattr(obj, p)
+            return obj
+        except (ImportError, AttributeError):
+            continue
+    raise AttributeError(name)
 
 
 def build_arg(spec, layout="C", fill=None):
